@@ -38,7 +38,7 @@ func checkC02(p *Prog, r *Report) {
 // ---- text provenance ----------------------------------------------------
 
 type textClass struct {
-	kind string // const | rendered | numeric | time | value | unknown
+	kind string    // const | rendered | numeric | time | value | unknown
 	val  ssa.Value // for kind=value: the *Value whose String() is written
 	why  string
 }
@@ -189,6 +189,21 @@ func classifyText(p *Prog, a *Anchors, v ssa.Value, depth int) textClass {
 			return classifyText(p, a, cc.Args[0], depth+1)
 		case "(*Value).String":
 			return textClass{kind: "value", val: cc.Args[0], why: "String() of a *Value"}
+		}
+		// a package helper returning text: classify what it returns
+		if p.InPkg(callee) && callee.Blocks != nil && depth < 10 && isStringType(callee.Signature.Results().At(0).Type()) {
+			var acc *textClass
+			for _, ret := range returnsOf(callee) {
+				tc := classifyText(p, a, res(ret, 0), depth+1)
+				if acc == nil {
+					acc = &tc
+				} else if acc.kind != tc.kind {
+					return textClass{kind: "unknown", why: "helper " + name + " returns " + acc.kind + " and " + tc.kind}
+				}
+			}
+			if acc != nil {
+				return *acc
+			}
 		}
 		return textClass{kind: "unknown", why: "result of " + name}
 	}
